@@ -512,6 +512,32 @@ def special_flag(F):
             if not sets:
                 r.violate("%s | block_alt write without flag" % fn["path"], F.loc(fn, calls[0]), "block_alt is requested without raising has_special_instr")
     r.count("block_alt_writes", n_w)
+    # (C) "an empty replacement removes without emitting": whatever was recorded in the slot before, the *empty* request
+    # overwrites it — a get-or-insert keeps a body injected earlier, so the construct is replaced instead of removed
+    for fn in F.fns:
+        if fn.get("body") is None or fn["name"] not in ("empty_block_alt_at", "empty_alternate_at"):
+            continue
+        slot = "block_alt" if "block" in fn["name"] else "alternate"
+        bodies = [fn["body"]]
+        for c in walk(fn["body"]):
+            if c.get("k") in ("Call", "MethodCall") and not isinstance(c.get("inlined"), dict):
+                t_ = F.by_path.get(c.get("inst") or c.get("callee") or "")
+                if t_ and len(t_) == 1 and t_[0].get("body") is not None and (t_[0].get("self_adt") or "").endswith(("::InstrumentationFlag", "::Instruction")):
+                    bodies.append(t_[0]["body"])
+                    for c2 in walk(t_[0]["body"]):
+                        t2 = F.by_path.get(c2.get("inst") or c2.get("callee") or "") if c2.get("k") in ("Call", "MethodCall") else None
+                        if t2 and len(t2) == 1 and t2[0].get("body") is not None and (t2[0].get("self_adt") or "").endswith(("::InstrumentationFlag", "::Instruction")):
+                            bodies.append(t2[0]["body"])
+        assigns = [x for b in bodies for x in walk(b) if x.get("k") == "Assign" and (place_path(x["lhs"]) or "").endswith(slot)]
+        keeps = [x for b in bodies for x in walk(b) if x.get("k") == "MethodCall" and x["method"] in ("get_or_insert_default", "get_or_insert_with", "get_or_insert") and (place_path(x["recv"]) or "").endswith(slot)]
+        if not assigns and not keeps:
+            r.undecided("%s: how the empty %s is stored was not recognised" % (fn["path"], slot))
+            continue
+        okc = bool(assigns) and not keeps
+        r.ob(okc, {"fn": fn["path"], "empty %s overwrites the slot" % slot: okc})
+        if not okc:
+            r.violate("%s | empty %s keeps an earlier body" % (fn["path"], slot), F.loc(fn),
+                      "%s stores the empty %s with a get-or-insert: a body injected earlier for the same instruction survives, so the instruction/construct is replaced by that body instead of being removed without emission" % (fn["name"], slot))
     # InstrumentationFlag::add_instr, by cases on the current mode (shape-independent): it returns true exactly for the
     # special modes (or diverges because the mode does not apply to the operator), false for the plain ones
     from rules.modes import mode_case_callbacks
